@@ -50,11 +50,13 @@ func (cp *channelProvider) run() {
 			panic(fmt.Errorf("newChannel unexpected error: %w", err))
 		}
 
+		verifPoint("prov.newChannel", ch)
 		cp.node.newChannel(ch)
 
 		if cp.endpoint.oneChannelAtAtime() {
 			// wait the channel to emit EventChannelClose
 			// before creating another channel
+			verifPoint("prov.waitDone", ch)
 			select {
 			case <-ch.done:
 			case <-cp.terminate:
